@@ -34,6 +34,7 @@ import traceback
 import numpy as np
 
 FINE = 8
+MICRO = 65536      # zone lengths are also logged in 1/MICRO lattice units
 FAMILIES = ('donothing', 'mirror', 'hybrid', 'characteristic', 'mod_donothing')
 
 
@@ -292,7 +293,10 @@ def run(sc):
         g=dict(Lin=sc['Lin'] * FINE, X=sc['X'] * FINE, Lout=sc['Lout'] * FINE,
                copyq=sc['ptc'] != 'nob', active=rig.expected_active),
         code=dict(Lin=int(round(ii.length / U * FINE)),
-                  Lout=int(round(oi.length / U * FINE))),
+                  Lout=int(round(oi.length / U * FINE)),
+                  LinM=int(round(ii.length / U * MICRO)),
+                  LoutM=int(round(oi.length / U * MICRO))),
+        mpf=MICRO // FINE,
         code_len_units=[ii.length / U, oi.length / U],
         impl_active=[list(rig.inlet_obj.active_stages),
                      list(rig.outlet_obj.active_stages)],
